@@ -111,8 +111,13 @@ class StaticFileHandler(RequestHandler):
             # Try each index filename in order (per Gemini best practices)
             index_found = False
             for index_name in self.default_indices:
-                index_path = file_path / index_name
-                if index_path.exists() and index_path.is_file():
+                # An index file may be a symlink: resolve it and apply the same
+                # containment check as for the requested path itself
+                try:
+                    index_path = (file_path / index_name).resolve()
+                except (OSError, ValueError, RuntimeError):
+                    continue
+                if self._is_safe_path(index_path) and index_path.is_file():
                     file_path = index_path
                     index_found = True
                     break
